@@ -10,16 +10,16 @@ NOTE = ('Trusted: Lean 4.33 kernel with axioms propext, Classical.choice, Quot.s
 
 CLAIMS = {
     'C01': dict(engine='pegdiff', ref='6 C01',
-                text='Lean theorems: C01_sound / C01_sound_expr (the model of the generated parser, with any memo set, computes the answer of the reference PEG semantics Spec.eval: acceptance, tree, consumed bytes, for every grammar, rule, input), eval_complete (converse), C01_unique (the PEG answer is unique), the PEG laws of Spec, terminal readings of every matcher at character level (Boundary.lean). Tie: pegdiff correspondence on generated grammars/inputs + exhaustive matcher table.',
+                text='Lean theorems: C01_sound / C01_sound_expr (the model of the generated parser, with any memo set, computes the answer of the reference PEG semantics Spec.eval: acceptance, tree, consumed bytes, for every grammar, rule, input), C01_complete (converse), C01_unique (the PEG answer is unique), C01_exactly_the_peg_language (the functional reference = the big-step PEG relation Sem, one constructor per rule), C01_terminates / C01_terminates_impl (every grammar passing the decidable well-formedness check wfCheck – refs defined, no include cycle, no closure over a nullable body, a rank decreasing along left-call edges – answers every rule on every input; grammar.ebnf as extracted passes it), the PEG laws of Spec, terminal readings of every matcher at character level (Boundary.lean). Tie: pegdiff correspondence on generated grammars/inputs + exhaustive matcher table.',
                 tech='Lean 4 refinement proof (model of generated parser = PEG reference semantics, both directions) + differential correspondence'),
     'C04': dict(engine='pegdiff+unitdiff', ref='6 C04',
                 text='Lean theorems: eval_boundary / C04_no_runtime_panic / C04_offsets_on_boundaries / C04_values_on_boundaries for the whole evaluator (every state, error position, @position range and @string slice is on a UTF-8 boundary inside the input; advance never overruns), per-matcher boundary theorems, necessity of the ASCII guard. Tie: pegdiff with cfg assertion in advance + is_char_boundary on all observed offsets; exhaustive matcher table.',
                 tech='Lean 4 invariant proof (UTF-8 boundary invariant over the whole evaluator) + differential correspondence with guarded assertion'),
     'C05': dict(engine='pegdiff', ref='6 C05',
-                text='Lean theorem C05_transparent: any two sets of @memoize rules give the same acceptance, tree and consumed bytes for every grammar/rule/input (cache invariant CacheOk + refinement to the memo-free reference semantics + setMemo invariance); C05_fresh. Tie: pegdiff memo family (4 variants per grammar, impl-vs-impl and impl-vs-model).',
+                text='Lean theorem C05_transparent: any two sets of @memoize rules give the same acceptance, tree and consumed bytes for every grammar/rule/input (cache invariant CacheOk + refinement to the memo-free reference semantics + setMemo invariance); C05_fresh. Tie: pegdiff memo family (4 variants per grammar, impl-vs-impl and impl-vs-model) incl. directed groups: a @check-ed rule revisited at one offset, a rule reached at one offset from skipping and non-skipping callers.',
                 tech='Lean 4 proof: cache invariant + refinement + determinism of the reference semantics; differential memo variants'),
     'C07': dict(engine='pegdiff', ref='6 C07',
-                text='Lean theorems: C07_terminates (the grow loop needs at most remaining-length + 2 iterations; progress and the offset bound are proved for the real rule body), C07_longest_growth (the answer is the last element of a strictly growing chain of body results), C07_direct (shape A = A x | b: left-nested tree after exactly m+2 body evaluations), C07_seed_replaced (the failing seed never stays in the cache). Tie: pegdiff leftrec family (five shapes, failing inputs, wrapper calling the rule twice at one offset) with a watchdog.',
+                text='Lean theorems: C07_terminates (the grow loop needs at most remaining-length + 2 iterations; progress and the offset bound are proved for the real rule body), C07_longest_growth (the answer is the last element of a strictly growing chain of body results), C07_direct (shape A = A x | b: left-nested tree after exactly m+2 body evaluations, from semantic hypotheses), C07_usual_shape (the same from the SYNTAX of the grammar: rule A = l:*A xs | base…, xs/base reach no @memoize/@leftrec rule; greedy iteration stated in the reference semantics; each extension holds the previous result), C07_seed_replaced. Tie: pegdiff leftrec family (six shapes incl. nullable base alternatives, failing inputs, wrapper calling the rule twice at one offset) with a watchdog + an independent regex oracle for the usual shape (b x* greedy, nesting depth). Known finding K4 (leading whitespace before a @leftrec rule; proved at model level).',
                 tech='Lean 4 proofs about the seed-and-grow loop (progress measure, run relation, shape lemma) + differential correspondence'),
     'C09': dict(engine='pegdiff', ref='6 C09',
                 text='Lean theorems: C09_range (range = entry/exit offsets, @string slice, also on cache hits), offsets monotone, C09_nested (all ranges inside the parent), C09_ordered (successive matches in consecutive intervals). Tie: pegdiff (positions are part of the compared tree; boundary/inside-input oracle on the implementation tree).',
@@ -31,10 +31,10 @@ CLAIMS = {
                 text='Lean theorems: C13_parsers_agree (parseAdvanced of the grammar with includes textually inlined = parseAdvanced of the original, as an equation: acceptance, tree, positions, error, cache), C13_types (same field descriptors), C13_in_context, C13_site. Tie: pegdiff incl family (grammar vs printed inlined twin, impl-vs-impl and impl-vs-model).',
                 tech='Lean 4 simulation proof (include = parenthesised body at equal fuel) + differential twin grammars'),
     'C18': dict(engine='fsdiff', ref='6 C18',
-                text='Lean theorems over operation histories: C18_failure_preserves, C18_untouched, C18_rewrite_only_when_needed, C18_fresh_partial (freshness after any history, under non-collision of CRC-32 on the texts of the history), and the proved negation of the unconditional statement with a concrete colliding pair (known finding K1). Tie: fsdiff histories against the real Compile in a scratch directory.',
+                text='Lean theorems over operation histories: C18_failure_preserves, C18_untouched, C18_rewrite_only_when_needed, C18_fresh_partial (freshness after any history, under non-collision of CRC-32 on the texts of the history), and the proved negation of the unconditional statement with a concrete colliding pair (known finding K1). Tie: fsdiff histories against the real Compile in a scratch directory (file, explicit destination, directory and symlinked-directory mode, bystander files).',
                 tech='Lean 4 invariant proof over operation histories of a file-system state machine + differential histories'),
     'C19': dict(engine='pegdiff', ref='6 C19',
-                text='Lean theorems: log erasure (no evaluator step reads the log: result, cache, user context independent of it) and Dyck balance / no underflow of tracer events on every exit path (failure, cache hit, left-recursion re-evaluation). Tie: pegdiff with a custom ParseTracer (callback sequence equal to the model, traced result equals plain result).',
+                text='Lean theorems: log erasure (no evaluator step reads the log: result, cache, user context independent of it) and Dyck balance / no underflow of tracer events on every exit path (failure, cache hit, left-recursion re-evaluation). Tie: pegdiff with a custom ParseTracer (callback sequence equal to the model, traced result equals plain result) and with the shipped IndentedTracer (result equal to the plain parse, no panic; deep-nesting family).',
                 tech='Lean 4 proof: log erasure + Dyck-balance invariant; differential tracer callback comparison'),
 }
 
